@@ -358,7 +358,7 @@ def run(ctx):
         'hook merge/doc_dump; CLI runs; python comparison of the structured reports',
     ]
     ctx.assumptions = ['"same verdicts" is observed on rule statuses, file status and exit code; messages that print paths or key order are not compared',
-                       'the theorem that evaluation depends on the document only through its stripped value is not proved; it is covered by the end-to-end comparison']
+                       'that evaluation depends on a document only through its content (not on paths / positions) is a theorem (EraseProps.v) about the MODELLED evaluator; for the implementation it rests on the model correspondence and on the end-to-end comparison here']
     if not pr['ok']:
         ctx.failing('proof obligations of Props/C17.v no longer check: %s' % (pr.get('problems') or pr.get('log', '')[-500:]),
                     {'class': 'proof', 'theorems': pr['theorems']}, found=False)
